@@ -14,7 +14,7 @@ use epserde::deser::{self, DeserializeInner, SliceWithPos};
 pub struct Placed<const N: usize>(pub [u8; N]);
 
 macro_rules! place {
-    ($name:ident, $t:ty, $bound:expr, $cap:expr, $unw:expr, $kmax:expr) => {
+    ($name:ident, $t:ty, $bound:expr, $cap:expr, $unw:expr, $kmax:expr, $mis:ident) => {
         #[kani::proof]
         #[kani::unwind($unw)]
         pub fn $name() {
@@ -56,20 +56,29 @@ macro_rules! place {
                 Err(e) => { core::mem::forget(e); assert!(false, "[C12/kind] a misplaced stream is refused with an alignment error") }
             };
             kani::cover!(all_aligned && k > 0, "[cover] well placed at a non-zero offset reached");
-            kani::cover!(!all_aligned, "[cover] misplaced reached");
+            $crate::c12_place::cover_mis!($mis, all_aligned);
         }
     };
 }
+macro_rules! cover_mis {
+    (blocks, $a:expr) => {
+        kani::cover!(!$a, "[cover] misplaced reached");
+    };
+    (bytes, $a:expr) => {
+        assert!($a, "[C12/bytes.any] streams containing only byte-aligned data are well placed at any address");
+    };
+}
+pub(crate) use cover_mis;
 
 // @h place_vec_u32 props=C12 tier=quick kind=bounded bound="len<=2; residues 0..15" vars="v:Vec<u32>, base residue k<16" fns="deser/slice_with_pos.rs:align,deser/helpers.rs:deserialize_eps_slice_zero"
-place!(place_vec_u32, Vec<u32>, 2, 32, 17, 16);
+place!(place_vec_u32, Vec<u32>, 2, 32, 17, 16, blocks);
 // @h place_z8 props=C12,C05 tier=quick kind=complete vars="v:Z8, base residue k<16" fns="deser/slice_with_pos.rs:align,deser/helpers.rs:deserialize_eps_zero"
-place!(place_z8, Z8, 0, 32, 17, 16);
+place!(place_z8, Z8, 0, 32, 17, 16, blocks);
 // @h place_opt_vec_u16 props=C12 tier=quick kind=bounded bound="len<=2; residues 0..15" vars="v:Option<Vec<u16>> (None has no block), base residue k<16" fns="deser/slice_with_pos.rs:align"
-place!(place_opt_vec_u16, Option<Vec<u16>>, 2, 32, 17, 16);
+place!(place_opt_vec_u16, Option<Vec<u16>>, 2, 32, 17, 16, blocks);
 // @h place_string props=C12 tier=quick kind=bounded bound="len<=2 ASCII; residues 0..15" vars="v:String (byte-aligned data only), base residue k<16" fns="impls/string.rs"
-place!(place_string, String, 2, 32, 17, 16);
+place!(place_string, String, 2, 32, 17, 16, bytes);
 // @h place_arr_u64 props=C12 tier=thorough kind=complete vars="v:[u64;2], base residue k<16" fns="impls/array.rs"
-place!(place_arr_u64, [u64; 2], 0, 32, 17, 16);
+place!(place_arr_u64, [u64; 2], 0, 32, 17, 16, blocks);
 // @h place_z32_128 props=C12,C05 tier=thorough kind=complete vars="v:Z32 (unit 16), base residue k<128" fns="deser/slice_with_pos.rs:align"
-place!(place_z32_128, Z32, 0, 64, 17, 128);
+place!(place_z32_128, Z32, 0, 64, 17, 128, blocks);
